@@ -1627,6 +1627,7 @@ SoPlexBase<R>& SoPlexBase<R>::operator=(const SoPlexBase<R>& rhs)
       _switchedToBoosted = rhs._switchedToBoosted;
       _certificateMode = rhs._certificateMode;
       _lastStallPrecBoosts = rhs._lastStallPrecBoosts;
+      _interrupt = nullptr;
       _factorSolNewBasisPrecBoost = rhs._factorSolNewBasisPrecBoost;
       _nextRatrecPrecBoost = rhs._nextRatrecPrecBoost;
       _prevIterations = rhs._prevIterations;
@@ -9467,6 +9468,7 @@ SoPlexBase<R>::SoPlexBase()
    _boostedSolver.setBasisSolver(&_boostedSlufactor);
 
    _lastStallPrecBoosts = 0;
+   _interrupt = nullptr;
    _factorSolNewBasisPrecBoost = true;
    _nextRatrecPrecBoost = 0;
    _prevIterations = 0;
